@@ -6,7 +6,9 @@
 2. spec -> impl: the harness writes the tables of real zones (tzif crate's parser only); TLC computes what the data
    say and enumerates every order of a small workload; every order is replayed against a fresh FsTzdbProvider.
 3. impl -> spec: seeded sessions (table event + offset / local queries around every kind of transition, identifier
-   checks) are validated by TLC against Trace_Tzif; mismatches carry the spec-computed class label.
+   checks) are validated by TLC against Trace_Tzif; mismatches carry the spec-computed class label. Besides the real
+   files: synthetic TZif data (close transitions, many types, offsets with seconds, +-25 h, empty tables, Jn / n /
+   mixed / out-of-day rule footers, all-year DST), written by the harness and read back by the same parser.
 4. Negative controls: a corrupted expectation must fail replay, a corrupted recorded answer must be flagged.
 """
 import json, os, re, collections, hashlib
@@ -23,6 +25,16 @@ REQUIRED_PREFIXES = ["offset/between", "offset/before-first", "offset/at-transit
                      "local-unique/between", "local-gap/near-transition", "local-overlap/near-transition", "local-unique/before-first",
                      "local-gap/after-last-footer", "local-overlap/after-last-footer", "unknown-zone",
                      "check/iana-name/as-listed", "check/iana-name/other-case", "check/non-name"]
+
+
+# synthetic zones: 84 = the full cross product of 7 table shapes x 12 footer shapes (rec/c15.rs synth_desc)
+SYNTH_ZONES_QUICK = 84
+SYNTH_ZONES_THOROUGH = 588
+
+
+# label parts that only synthetic data reach (vacuity guard: the synthetic part must have exercised them)
+REQUIRED_PARTS = ["/rule-J/", "/rule-N/", "/rule-mixed/", "/several-transitions", "/and-rule-transition", "offset/no-transitions-footer/north",
+                  "offset/no-transitions-footer/south", "offset/no-transitions-footer/negative-dst"]
 
 
 def key_of(e):
@@ -203,8 +215,16 @@ def run(run):
         res = validate_parts_parallel(run, b, [(f"lookup{p:02d}", 100000, ("lookup", p, nparts)) for p in range(nparts)], classes)
         first = res[0]
     negative_control_trace(run, *first)
+    # ---- 3b. synthetic TZif data: table and footer shapes that no real file has (harness/src/synth_tzif.rs writes the bytes,
+    #          the tzif crate's parser reads the table back, the library's lookups run on its own reading of the same bytes)
+    if q:
+        validate_part(run, b, "synth", 24, ("synth", SYNTH_ZONES_QUICK), classes)
+    else:
+        nparts = 4
+        validate_parts_parallel(run, b, [(f"synth{p}", 40, ("synth", SYNTH_ZONES_THOROUGH, p, nparts)) for p in range(nparts)], classes)
     run.cov["classes"] = {k: v for k, v in sorted(classes.items())}
     missing = [p for p in REQUIRED_PREFIXES if not any(k.startswith(p) for k in classes)]
+    missing += [p for p in REQUIRED_PARTS if not any(p in k for k in classes)]
     if missing:
         raise ToolError(f"vacuity guard: no recorded query fell into the classes {missing}")
     run.cov["rule"] = ("replay: every order of the workload (queries against real zone tables, incl. an unknown zone) is one distinct case, run against a fresh provider; "
@@ -215,5 +235,9 @@ def run(run):
         "harness glue: (day, second, nanosecond) <-> epoch nanoseconds, wall-clock fields <-> IsoDateTime, POSIX offsets negated to seconds east",
         "error kinds are not asserted: a query in a zone without a file must fail with some error (generic today)",
         "check_identifier('Factory') is left unasserted (tzdata's placeholder zone is listed in tzdata.zi but is absent from the baked normalizer)",
-        "the list returned for a wall-clock reading is compared as a set of instants",
+        "the list returned for a wall-clock reading is compared as a set of instants; for real zones (the provider's own wrapper) the list must also be in ascending order "
+        "(class instants-not-ascending), for synthetic zones the order is not observed (the wrapper is replicated in the harness)",
+        "synthetic TZif data: the TZif version 2 writer (harness/src/synth_tzif.rs; checked by re-writing real files and parsing them back, and by comparing every parse with the description) and the "
+        "replica of FsTzdbProvider's two thin lookup wrappers (floor to seconds + Tzif::get; v2_estimate_tz_pair + offset subtraction) in harness/src/ops_tzdb.rs, needed because the provider only reads "
+        "/usr/share/zoneinfo; type offsets are kept within RFC 8536's recommended range [-89999, 93599]; files with an empty footer are rejected by the tzif crate's parser (no table: queries must fail)",
     ]
